@@ -551,7 +551,17 @@ func hasDynamicIndex(e string) bool {
 // with a dynamic index, numbers of the document can become indices too.
 var recAssign = regexp.MustCompile(`\.\.\.?\s*[-+*/]?=([^=]|$)`)
 
+// boundRepeat: `string * n` repeats the string, and two such steps in a row (`"a" * 65536 | length * @tsv`) ask
+// for gigabytes: where an expression multiplies, literals of four or more digits are replaced
+func boundRepeat(e string) string {
+	if strings.Contains(e, "*") && hugeLit.MatchString(e) {
+		return hugeLit.ReplaceAllString(e, "7")
+	}
+	return e
+}
+
 func BoundCase(e, input string) (string, string) {
+	e = boundRepeat(e)
 	// an assignment to every node of a recursive descent whose value holds the context again (`.. = .`,
 	// `... = .. = .`) embeds the document into itself once per node: exponential output by construction
 	// (3 keys: 64 GB), not a crash site. The descent is replaced by a plain path.
@@ -566,6 +576,7 @@ func BoundCase(e, input string) (string, string) {
 
 // BoundIndices applies the generator bound described above.
 func BoundIndices(e string) string {
+	e = boundRepeat(e)
 	if !hugeLit.MatchString(e) || !hasDynamicIndex(e) {
 		return e
 	}
